@@ -2,7 +2,7 @@ package main
 
 // EVM arithmetic core (C16): every listed `case OP:` of the big `switch op` in
 // vm/contract.go `execute` is symbolically executed over a symbolic stack and
-// rewritten into a Lean term over the primitives of lean/Shentu/EVM/BigOps.lean
+// rewritten into a Lean term over the primitives of lean/Shentu/Arith/BigOps.lean
 // (math/big, Burrow's binary package and Stack).  Popped words become the
 // parameters w0 w1 .. (pop order); the result is the word on top of the stack
 // when the case ends.  A fallible primitive (Div/Mod/Quo/Rem panic on zero,
@@ -438,7 +438,7 @@ func evmCase(fd *ast.FuncDecl, name string) *ast.CaseClause {
 
 func genEVM(fc *fileCache) {
 	g := &genFile{ns: "EVM"}
-	g.lines = append(g.lines, "open Shentu.EVM", "set_option linter.unusedVariables false -- Go variables that are assigned but only printed", "")
+	g.lines = append(g.lines, "open Shentu.Arith", "set_option linter.unusedVariables false -- Go variables that are assigned but only printed", "")
 	file := "vm/contract.go"
 	fd := fc.fn(file, "execute")
 	for _, op := range evmOps {
@@ -487,5 +487,5 @@ func genEVM(fc *fileCache) {
 			fmt.Sprintf("def op_%s_found : Bool := %v", op.name, ok), "")
 		g.found = append(g.found, "op_"+op.name+"_found")
 	}
-	g.write("EVM", []string{"Shentu.EVM.BigOps"})
+	g.write("EVM", []string{"Shentu.Arith.BigOps"})
 }
